@@ -224,3 +224,21 @@ func seedPending(st *consensus.AppState) {
 		st.NetDelegators.PendingList = append(st.NetDelegators.PendingList, network_delegation.PendingDelegator{Address: &addr, Amount: &c, Height: h})
 	}
 }
+
+func checkC14(tier string) int {
+	return runSubsys(subsysCfg{
+		id:      "C14",
+		rule:    "seeded histories driving proposals through every lifecycle branch (pass, fail by votes, cancel, miss the goal, expire in voting, configuration update) with funders, validators, late-staked validators and outsiders who send expire/finalize transactions at arbitrary heights relative to the deadlines, interleaved with staking changes; a per-proposal lifecycle automaton (store prefix + status + outcome across dumps), the outcome recomputed from the recorded votes with exact rationals, exact escrow accounting from the successful transactions, and governance option records compared block to block; a case is one block; non-trivial = a proposal changed phase or funds moved; distinct by (seed, height, app hash)",
+		assume:  []string{"the recorded vote records (validator, opinion, power) are what the outcome is recomputed from"},
+		scripts: []string{"governance-strangers", "transfers", "staking"},
+		nhQ:     8, nhT: 50, blQ: 48, blT: 150,
+		params: func(i int, hseed int64) world.Params {
+			return world.Params{Frankenstein: 1, NumGenesisVals: 4, NumCandidates: 2, VotingDeadline: int64(6 + i%5), FundingDeadline: 12}
+		},
+		newMon: func(w *world.World) func(run *hist.Runner, blk *hist.Block) []mon.Finding {
+			m := mon.NewC14(w.P.Frankenstein)
+			return wrapStateful(m.OnBlock)
+		},
+		gates: map[string]int{"ok:PROPOSAL_CREATE": 6, "ok:PROPOSAL_FUND": 5, "ok:PROPOSAL_VOTE": 4, "ok:PROPOSAL_CANCEL": 1, "ok:PROPOSAL_WITHDRAW_FUNDS": 2},
+	}, tier)
+}
